@@ -21,11 +21,11 @@ ModelStep(e) ==
     [] e.op = "collect" -> Collect(e.a)
     [] e.op = "with_capacity" -> WithCapacity(e.a)
     [] e.op = "clear" -> Clear
-    [] e.op = "drain" -> Drain(e.a, e.b, e.c, e.d)
+    [] e.op = "drain" -> DrainK(e.k, e.a, e.b, e.c, e.d)
     [] e.op = "get" -> Get(e.a)
-    [] e.op = "get_range" -> GetRange(e.a, e.b)
+    [] e.op = "get_range" -> GetRangeK(e.k, e.a, e.b)
     [] e.op = "get_mut_write" -> GetMutWrite(e.a)
-    [] e.op = "get_mut_range_write" -> GetMutRangeWrite(e.a, e.b)
+    [] e.op = "get_mut_range_write" -> GetMutRangeWriteK(e.k, e.a, e.b)
     [] e.op = "iter" -> Iter
     [] e.op = "iter_rev" -> IterRev
     [] e.op = "iter_mixed" -> IterMixed(e.a)
